@@ -2,7 +2,7 @@
 # usage: tools/mut.sh <prop> <file-rel> <sed-expr>   — apply a sed edit to a scratch copy of the file and run the check
 P=$1; F=$2; S=$3
 M=/var/tmp/mrepo.$$; mkdir -p $M/$(dirname $F)
-for f in des-cqueue/src/stable/mod.rs des/src/runtime/mod.rs des/src/runtime/limit.rs des/src/runtime/event/event_set.rs des/src/runtime/builder.rs des/src/net/processing.rs des/src/net/channel.rs des/src/net/runtime/mod.rs des/src/net/message/mod.rs; do mkdir -p $M/$(dirname $f); cp /repo/$f $M/$f; done
+for f in des-cqueue/src/stable/mod.rs des/src/runtime/mod.rs des/src/runtime/limit.rs des/src/runtime/event/event_set.rs des/src/runtime/builder.rs des/src/net/processing.rs des/src/net/channel.rs des/src/net/runtime/mod.rs des/src/net/message/mod.rs des/src/net/message/header.rs des/src/net/message/body.rs des/src/time/mod.rs des/src/time/duration.rs des/src/macros/cfg.rs des/src/runtime/bench.rs des/src/runtime/event/types.rs des-cqueue/src/stable/linked_list.rs des-cqueue/src/stable/alloc.rs des/src/net/path.rs; do mkdir -p $M/$(dirname $f); cp /repo/$f $M/$f; done
 sed -i "$S" $M/$F
 if diff -q /repo/$F $M/$F >/dev/null; then echo "MUTATION DID NOT APPLY"; rm -rf $M; exit 3; fi
 diff /repo/$F $M/$F | head -6
